@@ -93,10 +93,13 @@ func writeDumpCheckpoint(outputDir string, value dumpCheckpoint) error {
 
 	tempPath := filepath.Join(outputDir, dumpCheckpointFileName+".tmp")
 	finalPath := filepath.Join(outputDir, dumpCheckpointFileName)
+	fsStep("checkpoint.write")
 	if err := os.WriteFile(tempPath, payload, 0o600); err != nil {
 		return fmt.Errorf("write dump checkpoint temp file: %w", err)
 	}
+	fsStep("checkpoint.rename")
 	if err := os.Rename(tempPath, finalPath); err != nil {
+		fsStep("checkpoint.remove-temp")
 		_ = os.Remove(tempPath)
 		return fmt.Errorf("publish dump checkpoint: %w", err)
 	}
@@ -274,6 +277,7 @@ func removeKnownDumpCheckpointTemps(outputDir string, value dumpCheckpoint) erro
 		paths = append(paths, filepath.Join(outputDir, filepath.FromSlash(nextPath))+".tmp")
 	}
 	for _, candidate := range paths {
+		fsStep("resume.remove-temp")
 		if err := os.Remove(candidate); err != nil && !os.IsNotExist(err) {
 			return fmt.Errorf("remove stale dump temporary file %q: %w", candidate, err)
 		}
@@ -348,6 +352,7 @@ func filterPhaseFiles(files []FileManifest, phase Phase) []FileManifest {
 }
 
 func removeDumpCheckpoint(outputDir string) error {
+	fsStep("checkpoint.remove")
 	if err := os.Remove(filepath.Join(outputDir, dumpCheckpointFileName)); err != nil && !os.IsNotExist(err) {
 		return fmt.Errorf("remove dump checkpoint: %w", err)
 	}
